@@ -520,6 +520,8 @@ def _explain(it: Item, args: tuple) -> str:
 def _engine_b(run: Run, progress: bool) -> None:
     action_layer(run, progress)
     parser_layer(run, progress)
+    from . import c19_backends
+    c19_backends.backend_layer(run, progress)
 
 
 def main() -> int:
@@ -528,7 +530,8 @@ def main() -> int:
     sub = _v.SubRun(run, lambda r: _engine_b(r, progress))
     sess = lexer_layer(run, progress=progress)
     sub.join()
-    run.assumptions.append("this run covers the lexer, token-action and parser-layout layers of C19 (backends are a separate layer)")
+    run.assumptions.append("layers: lexer (z3), token actions, parser layout, backends (CrossHair); the backend layer compares each backend's "
+                           "output for every case re-spelling of 10 filter templates with the canonical spelling")
     rx.attach_results(run)
     code = run.finish()
     return 2 if sess is None else code
